@@ -44,10 +44,10 @@ const c20TestPriv = "MIIEpQIBAAKCAQEAuNEufiuryg/OZPKVUbaIRam1UNqju5binwrRzsOGWkM
 const c20TestPub = "MIIBCgKCAQEAuNEufiuryg/OZPKVUbaIRam1UNqju5binwrRzsOGWkM6DYKqxW2tA+O7dhg9do/Jm0lr+rkVqf8CR/HejD08n9OTsHe0NeblLwZncQX1J3ayyGsu+xAFxQ0hvFfG+Vy8KXJAgug6CCsaiVgBwOWPdfEOqEDv5S5XlnwQh9dxWB8m/1CTDmqSdIhYnzQQp13ZyumCRgrIHKSYPR3KCZD8KLRvkoIrF0DU18f6ASO7wjv7FBhgQ2ZAR/Yud/h6ceQKvAW0W3MmPiJblZhbrsPQGi7eZZo4K8aAvuzQmcYq17/E/e6MnOweoyik4lIAG0uGa7FiY5f9NVuir7JPA2lCLwIDAQAB"
 
 var c20GeneratedKeys = [][2]string{
-{"MIGJAoGBANRbnJW+OoDRWexZPqVwCDSaxP4AomMZd9pTdv4hD6+xy0fk23t6CMaah6FBChkrAAgTCl9uTfcnb7KK5MqfpoAfv6QGdTigLbMY9kuKVyhOUEZYgtllV6jNd6nQKceD1ZDO9IJLu9ISLsmPk53IDnDJaMAU2PFmVHBNxp+CbkirAgMBAAE=",
-"MIICXQIBAAKBgQDUW5yVvjqA0VnsWT6lcAg0msT+AKJjGXfaU3b+IQ+vsctH5Nt7egjGmoehQQoZKwAIEwpfbk33J2+yiuTKn6aAH7+kBnU4oC2zGPZLilcoTlBGWILZZVeozXep0CnHg9WQzvSCS7vSEi7Jj5OdyA5wyWjAFNjxZlRwTcafgm5IqwIDAQABAoGAM/K1O2xto1WTSd4LFS1y1GuIBRrinpt8VkxUr5Ym4DP+Jng1uN8BhpQG2cuvTLjYKSF/SBkTuYJMMMEJdwfXEs6dnkMTLiXKDJxGdffXMSZxe3mayUJrztY3vlMH16cd6zJ557SPSxyhqz38+qa74SzkjbuqvkCtoYMmPSCKTwECQQDqkuF/wTsQsIuTf7fN0S+O3hu2Bqi7wL/6rVltbYjc9zaEq4PWyrLO6MVkrZOElbjBcaaugOF7WxcYb6GFMhefAkEA58E/tGmfpx5UYuxSW70DhCFmwMnQIdgKAS8o3ksl4tHL+froQPdCVHFS3RlBY9B7FauPbqPItaR9uxegXzljdQJBAMziQeeuRQLM0Pyh/07buWhWA2o34sUrFAPFyWhU1cf6fTnf/SVsokUq9s569XBGvbroo6ejlk6CP2fuiOun1w0CQQCxHOH3mcUWbbpmA18JlxDp2LDzYwg55SX4M7dS8zFX/6eYOqVmiNBbQmPmbtenVXvLWtp53peUIcqoweyg+XXFAkAckn3z1MsO0ZWIqTXkOg7hGeepbxD7ds84Sbm9Aaf+n1MTQ9g+gDT6jj6tbgCZy+TVuz99w7NiukFhxR9EuB51"},
-{"MIGJAoGBAM6e2Zezc8N3siCRTkM5Az+6ihdxHuL3PC1+HK9BA+2052ERqkPPaMCI8N9qW7iEoPaD3FA/FDEVf2QLyAdcn5Dj0wuBlqM9aNyhxFqyjRTOwfm8wk1NRrna3J3CeUHHLAGyRKNAxDJbhksMt4AloyVPV4UgFPuBtjHVhh+5lTgPAgMBAAE=",
-"MIICXAIBAAKBgQDOntmXs3PDd7IgkU5DOQM/uooXcR7i9zwtfhyvQQPttOdhEapDz2jAiPDfalu4hKD2g9xQPxQxFX9kC8gHXJ+Q49MLgZajPWjcocRaso0UzsH5vMJNTUa52tydwnlBxywBskSjQMQyW4ZLDLeAJaMlT1eFIBT7gbYx1YYfuZU4DwIDAQABAoGALmIKhruKKT8dhaIY545M5GmDxm9md5z4rV26Ir19nEcYCfplNoPBCDe1mvHNVUawu6YuNvVyGvKwfk0GwmBQkVZuObx+QAU+Z1we3aTAu8S0F1YgKJHHtVLHF23Sp1kvkLzIv8Ggbl3yau8WQ841Jo8820cj04aDW8NcUN/HYQECQQD6wrAvtUyF060CxIUZOmu5aTfh2VYkqL/pclCW3p08MndmfohISF9jN6s74JamPjK7HnpI4aICgV77Q0m6OkAfAkEA0vAO2TBUSjG2d8YsH0Rzz+Kj4yHIxPDRzvRbAWNtWbb3W54S/psBodizjo55f4RTQDjb/3JdE1dOoQvGnRJKEQJAOXJ8tpFMVKRn0GiBLYRqxXFLchw+Veuq+6pKuCWL1AyjugFm61hZMfvA6NjM6oz5RlD3Jtc6LGTDA8EolNdfdQJAL18WFpSR+W+cqN1qf0MiNyeQ4qttqTzkAXRDE9a+cg1zE7I2VdN91FkUSgmZI5gWEjAyx/VpDbTnxacdXZ0D4QJBALXJArinZQpcGyL7qWzbZl06+8YRnwFaqdZ5cLPWtdT0d0kSEwjGdzTigDlA0NM8ez+jak2tM4VtE51NwDOy57A="},
+	{"MIGJAoGBANRbnJW+OoDRWexZPqVwCDSaxP4AomMZd9pTdv4hD6+xy0fk23t6CMaah6FBChkrAAgTCl9uTfcnb7KK5MqfpoAfv6QGdTigLbMY9kuKVyhOUEZYgtllV6jNd6nQKceD1ZDO9IJLu9ISLsmPk53IDnDJaMAU2PFmVHBNxp+CbkirAgMBAAE=",
+		"MIICXQIBAAKBgQDUW5yVvjqA0VnsWT6lcAg0msT+AKJjGXfaU3b+IQ+vsctH5Nt7egjGmoehQQoZKwAIEwpfbk33J2+yiuTKn6aAH7+kBnU4oC2zGPZLilcoTlBGWILZZVeozXep0CnHg9WQzvSCS7vSEi7Jj5OdyA5wyWjAFNjxZlRwTcafgm5IqwIDAQABAoGAM/K1O2xto1WTSd4LFS1y1GuIBRrinpt8VkxUr5Ym4DP+Jng1uN8BhpQG2cuvTLjYKSF/SBkTuYJMMMEJdwfXEs6dnkMTLiXKDJxGdffXMSZxe3mayUJrztY3vlMH16cd6zJ557SPSxyhqz38+qa74SzkjbuqvkCtoYMmPSCKTwECQQDqkuF/wTsQsIuTf7fN0S+O3hu2Bqi7wL/6rVltbYjc9zaEq4PWyrLO6MVkrZOElbjBcaaugOF7WxcYb6GFMhefAkEA58E/tGmfpx5UYuxSW70DhCFmwMnQIdgKAS8o3ksl4tHL+froQPdCVHFS3RlBY9B7FauPbqPItaR9uxegXzljdQJBAMziQeeuRQLM0Pyh/07buWhWA2o34sUrFAPFyWhU1cf6fTnf/SVsokUq9s569XBGvbroo6ejlk6CP2fuiOun1w0CQQCxHOH3mcUWbbpmA18JlxDp2LDzYwg55SX4M7dS8zFX/6eYOqVmiNBbQmPmbtenVXvLWtp53peUIcqoweyg+XXFAkAckn3z1MsO0ZWIqTXkOg7hGeepbxD7ds84Sbm9Aaf+n1MTQ9g+gDT6jj6tbgCZy+TVuz99w7NiukFhxR9EuB51"},
+	{"MIGJAoGBAM6e2Zezc8N3siCRTkM5Az+6ihdxHuL3PC1+HK9BA+2052ERqkPPaMCI8N9qW7iEoPaD3FA/FDEVf2QLyAdcn5Dj0wuBlqM9aNyhxFqyjRTOwfm8wk1NRrna3J3CeUHHLAGyRKNAxDJbhksMt4AloyVPV4UgFPuBtjHVhh+5lTgPAgMBAAE=",
+		"MIICXAIBAAKBgQDOntmXs3PDd7IgkU5DOQM/uooXcR7i9zwtfhyvQQPttOdhEapDz2jAiPDfalu4hKD2g9xQPxQxFX9kC8gHXJ+Q49MLgZajPWjcocRaso0UzsH5vMJNTUa52tydwnlBxywBskSjQMQyW4ZLDLeAJaMlT1eFIBT7gbYx1YYfuZU4DwIDAQABAoGALmIKhruKKT8dhaIY545M5GmDxm9md5z4rV26Ir19nEcYCfplNoPBCDe1mvHNVUawu6YuNvVyGvKwfk0GwmBQkVZuObx+QAU+Z1we3aTAu8S0F1YgKJHHtVLHF23Sp1kvkLzIv8Ggbl3yau8WQ841Jo8820cj04aDW8NcUN/HYQECQQD6wrAvtUyF060CxIUZOmu5aTfh2VYkqL/pclCW3p08MndmfohISF9jN6s74JamPjK7HnpI4aICgV77Q0m6OkAfAkEA0vAO2TBUSjG2d8YsH0Rzz+Kj4yHIxPDRzvRbAWNtWbb3W54S/psBodizjo55f4RTQDjb/3JdE1dOoQvGnRJKEQJAOXJ8tpFMVKRn0GiBLYRqxXFLchw+Veuq+6pKuCWL1AyjugFm61hZMfvA6NjM6oz5RlD3Jtc6LGTDA8EolNdfdQJAL18WFpSR+W+cqN1qf0MiNyeQ4qttqTzkAXRDE9a+cg1zE7I2VdN91FkUSgmZI5gWEjAyx/VpDbTnxacdXZ0D4QJBALXJArinZQpcGyL7qWzbZl06+8YRnwFaqdZ5cLPWtdT0d0kSEwjGdzTigDlA0NM8ez+jak2tM4VtE51NwDOy57A="},
 }
 
 type c20Input struct {
@@ -69,6 +69,8 @@ func replayC20(sub string, in json.RawMessage) *fw.Violation {
 		return c20Decrypt(d, false)
 	case "question":
 		return c20Question(d)
+	case "fm-roundtrip":
+		return c20FrontmatterRoundtrip(d)
 	}
 	return nil
 }
@@ -92,7 +94,7 @@ func runC20(w *fw.Worker) {
 	for _, k := range c20GeneratedKeys {
 		keys = append(keys, kp{k[0], k[1]})
 	}
-	answers := []string{"a", "a, c", "", "x", "é", "€", "😀", "line1\nline2\n", strings.Repeat("abcdefghij", 30), strings.Repeat("0123456789abcdef", 4096)}
+	answers := []string{"a", "a, c", "", "x", "é", "€", "😀", "line1\nline2\n", " a", "a ", "\ta\n\n", "\n", " ", "\u00a0b\u00a0", "    print 1\n    print 2\n", strings.Repeat("abcdefghij", 30), strings.Repeat("0123456789abcdef", 4096)}
 	// (1) round trips and (3) other keys
 	for ki, k := range keys {
 		for _, a := range answers {
@@ -116,6 +118,14 @@ func runC20(w *fw.Worker) {
 				}
 			}
 		}
+	}
+	// (1b) seal / unseal on the front matter of a question: the answer text comes back unchanged
+	for ai, a := range answers {
+		if a == "" || ai%w.NShards != w.Shard && w.NShards > 1 {
+			continue // an empty answer cannot be sealed
+		}
+		d := c20Input{Kind: "fm-roundtrip", Answer: a}
+		w.RunCase(fmt.Sprint("fmrt", ai), func() *fw.Violation { w.Nontrivial(); w.Count("frontmatter-roundtrips", 1); return c20FrontmatterRoundtrip(d) })
 	}
 	// (2) corruptions
 	corruptAnswers := []string{"a", "a, c", "€ é", strings.Repeat("abcdefghij", 30)}
@@ -198,6 +208,51 @@ func runC20(w *fw.Worker) {
 		maxN = 5
 	}
 	outputs := []string{"x", "y", "z"} // index 0 matches the question
+	// (4b) outputs that differ from the question's output only in white space do not match: choices are programs, the question shows the output "hi\n"
+	progs := []string{"print \"hi\"", "print \" hi\"", "print \"hi\"\n  print", "print \"hi \"", "print \"ho\""} // index 0 matches
+	for _, atype := range []string{"multiple-choice", "single-choice"} {
+		for n := 2; n <= 3; n++ {
+			total := 1
+			for i := 0; i < n; i++ {
+				total *= len(progs)
+			}
+			for code := 0; code < total; code++ {
+				assign := make([]int, n)
+				for i, c := 0, code; i < n; i++ {
+					assign[i] = c % len(progs)
+					c /= len(progs)
+				}
+				for mask := 1; mask < 1<<n; mask++ {
+					var marked []string
+					var md strings.Builder
+					md.WriteString("Which program generates the following text output?\n\n```\nhi\n```\n\n")
+					want := true
+					for i, o := range assign {
+						fmt.Fprintf(&md, "- ```evy\n  %s\n  ```\n", progs[o])
+						isMarked := mask&(1<<i) != 0
+						if isMarked {
+							marked = append(marked, string(rune('a'+i)))
+						}
+						want = want && isMarked == (o == 0)
+					}
+					if atype == "single-choice" {
+						want = want && len(marked) == 1
+					}
+					answer := strings.Join(marked, ", ")
+					fm := "type: question\ndifficulty: easy\nanswer-type: " + atype + "\nanswer: " + answer + "\n"
+					d := c20Input{Kind: "question", FM: fm, MD: md.String(), Answer: answer, Want: want}
+					w.Case(fmt.Sprint("ws", atype, assign, marked), func() *fw.Violation {
+						w.Count("questions", 1)
+						w.Count("whitespace-questions", 1)
+						if !want {
+							w.Nontrivial()
+						}
+						return c20Question(d)
+					})
+				}
+			}
+		}
+	}
 	for _, atype := range []string{"multiple-choice", "single-choice"} {
 		for n := 2; n <= maxN; n++ {
 			assign := make([]int, n)
@@ -260,6 +315,34 @@ func runC20(w *fw.Worker) {
 			}
 		}
 	}
+}
+
+// c20FrontmatterRoundtrip seals and unseals the answer of a question model's front matter.
+func c20FrontmatterRoundtrip(d c20Input) *fw.Violation {
+	viol := func(sig, obs string) *fw.Violation {
+		return &fw.Violation{Sub: "fm-roundtrip", Signature: sig, What: "sealing and unsealing the front matter answer does not return the original text", Input: d,
+			Expected: fmt.Sprintf("%q", fw.Trunc(d.Answer, 60)), Observed: obs}
+	}
+	fm := "type: question\ndifficulty: easy\nanswer-type: multiple-choice\nanswer: a\n"
+	md := "What does this program print?\n\n```evy\nprint \"x\"\n```\n\n- `x`\n- `y`\n"
+	m, err := learn.NewQuestionModel("course/unit/exercise/question1.md", learn.WithRawMD(fm, md), learn.WithPrivateKey(c20TestPriv))
+	if err != nil {
+		panic("C20: cannot build the carrier question: " + err.Error())
+	}
+	m.Frontmatter.Answer = d.Answer
+	if err := m.Seal(c20TestPub); err != nil {
+		return viol("fm-seal-failed", err.Error())
+	}
+	if !m.IsSealed() || m.Frontmatter.Answer != "" {
+		return viol("fm-not-sealed", fmt.Sprintf("sealed=%v answer=%q", m.IsSealed(), m.Frontmatter.Answer))
+	}
+	if err := m.Unseal(); err != nil {
+		return viol("fm-unseal-failed", err.Error())
+	}
+	if m.Frontmatter.Answer != d.Answer || m.IsSealed() {
+		return viol("fm-roundtrip-differs", fmt.Sprintf("%q", fw.Trunc(m.Frontmatter.Answer, 100)))
+	}
+	return nil
 }
 
 func c20Question(d c20Input) *fw.Violation {
